@@ -18,13 +18,14 @@ rows = []
 for f in sorted(glob.glob(os.path.join(HERE, 'seeded', '*', 'meta.json'))):
     d = json.load(open(f))
     caught = []
+    import re
     for p, c in d.get('checks', {}).items():
         for ln in c.get('lines', []):
-            if ln.startswith('counterexample'):
-                caught.append(ln.split(':', 1)[1].split('[')[0].strip().split(':')[0] + ':' +
-                              ln.split(':', 2)[2].split('[')[0].split(':')[0].strip())
+            m = re.match(r'counterexample (\w+):(\w+)', ln)
+            if m:
+                caught.append('%s %s:%s' % (p, m.group(1), m.group(2)))
     rows.append((d['id'], d['property'], 'caught' if d.get('detected') else 'MISSED',
-                 ', '.join(sorted(set(caught)))[:80], (d.get('what_changed') or '')[:160].replace('\n', ' '),
+                 ', '.join(sorted(set(caught)))[:120], (d.get('what_changed') or '')[:160].replace('\n', ' '),
                  (d.get('needs_to_manifest') or '')[:160].replace('\n', ' ')))
 out = ['# Seeded changes\n',
        'Each directory holds `patch.diff` (against /repo HEAD at the time), `demo.py` (exits 0 clean, non-zero patched) and',
